@@ -880,6 +880,8 @@ func runC08(h *H) {
 			h.DoRisky("thrift.alloc", pn, lst, hx(e))
 		}
 	}
+	// allocation clause: measured allocation against the accounting model (thriftalloc.go)
+	h.thriftAllocCases()
 }
 
 // ---- directed generators for the decoder / writer repairs ------------------------------------------
